@@ -25,7 +25,7 @@ RULE = ("model trees of depth <= 5 assembled with the public model constructors:
         "swapped / retyped / inserted, templates nested into each other; (c) the templates themselves. "
         "Non-trivial = tree depth >= 2; distinct by (head, argument-shape signature, outcome class).")
 FLOOR = {"quick": 3000, "thorough": 12000}
-BUDGET = {"quick": 36, "thorough": 600}
+BUDGET = {"quick": 26, "thorough": 600}
 CASE_TIMEOUT = 6
 NEEDS_EVENTS = True
 ANCHORS = ["hy.compiler:HyASTCompiler.compile", "hy.compiler:HyASTCompiler._storeize",
@@ -644,6 +644,16 @@ def setup_worker(tier, seed):
 
 def finish_worker():
     return dict(_extra)
+
+
+def gate(tot, classes, extra, tier):
+    try:
+        missing = [h for h in G.core_heads() if ("head:" + h) not in classes]
+    except Exception:
+        return None
+    if missing:
+        return "core-macro-heads-never-compiled:" + ",".join(missing[:8])
+    return None
 
 
 def features(ir):
